@@ -17,6 +17,7 @@ import pymbolic.mapper as mapmod
 
 from ..core import check, short
 from ..gen import expr as G
+from ..gen import scale
 from ..mon import streams
 from ..mon.trace import HandlerTrace
 from ..ref import normal, refsem
@@ -366,6 +367,16 @@ def make_map(rng, keys, gen_value):
             v = gen_value()
         d[k] = v
     # a name and the Variable of the same name both as keys: legal, expression key wins
+    if rng.random() < 0.12:
+        # a LARGE table (17 .. 130 entries): names that do not occur, given as strings and as
+        # Variables, and a few look-up / subscript keys whose attribute is also a variable name
+        n = rng.choice(scale.WIDTHS)
+        for i in range(n):
+            u = rng.random()
+            k = f"u{i}" if u < 0.45 else p.Variable(f"u{i}") if u < 0.9 \
+                else p.Lookup(p.Variable("s"), rng.choice("xyzab")) if u < 0.95 \
+                else p.Subscript(p.Variable("s"), i)
+            d.setdefault(k, rng.choice([i, p.Variable(f"u{(i + 1) % n}"), p.Sum((p.Variable("x"), i))]))
     return d
 
 
@@ -415,6 +426,8 @@ def workload(ctx):
             if rng.random() < 0.3:
                 kw = {rng.choice("xyzab"): ag.gen(1)}
             smap = list({**d, **kw}.items())
+            if len(d) > 16:
+                ctx.count("large_tables")
             nt = normal.count_ops(e) >= 1 and contains_match(e, smap)
             ctx.case((normal.typed_key(e), repr(_m(d)), repr(_m(kw))), nt, n=0)
             ctx.count("maps_with_match" if contains_match(e, smap) else "maps_without_match")
@@ -453,6 +466,7 @@ def workload(ctx):
             ctx.count("handler:" + k, v)
     ctx.floor("stream:rows", 500)
     ctx.floor("stream:row_address_reused", 100)
+    ctx.floor("large_tables", 100)
     ctx.floor("entry:plain", 2000)
     ctx.floor("entry:cached", 2000)
     ctx.floor("identity_checked", 5000)
